@@ -302,12 +302,17 @@ Section Footprints.
     pres_step; [pres_tac|]. pres_step; [|pres_tac]. apply pres_modw. intros w. apply H.
   Qed.
 
-  Lemma send_tail_pres m w0 : ins_all f [FNout; FJsout; FJout] -> pres f (send_tail c m w0).
+  Lemma send_write_pres m : ins_all f [FNout; FJsout; FJout] -> pres f (send_write c m).
   Proof.
     intros H. cbn in H. destruct H as [H3 [H4 [H5 _]]].
-    unfold send_tail. pres_step; [pres_tac|]. pres_step; [apply encode_pres; ins_auto|].
+    unfold send_write. pres_step; [apply encode_pres; ins_auto|].
     pres_step; [pres_tac|]. pres_step; [pres_tac|]. pres_step; [pres_tac|].
     apply persist_out_pres. ins_auto.
+  Qed.
+
+  Lemma send_tail_pres m w0 : ins_all f [FNout; FJsout; FJout] -> pres f (send_tail c m w0).
+  Proof.
+    intros H. unfold send_tail. pres_step; [pres_tac|]. now apply send_write_pres.
   Qed.
 
   Lemma send_gate_pres m w0 : ins_all f [FSt; FRole] -> pres f (send_gate m w0).
@@ -517,16 +522,20 @@ Section Events.
       (allev_step; [apply state_set_allev; auto | allev_tac]).
   Qed.
 
-  Lemma send_tail_allev m w0 : (forall tags, P (Wire (mkMsg (mtype m) tags))) -> allev P (send_tail c m w0).
+  Lemma send_write_allev m : (forall tags, P (Wire (mkMsg (mtype m) tags))) -> allev P (send_write c m).
   Proof.
-    intros H2. unfold send_tail.
-    allev_step; [allev_tac|].
+    intros H2. unfold send_write.
     apply allev_bind_post with (Q := fun sm => mtype (snd sm) = mtype m);
       [apply encode_allev | intros; eapply encode_mtype; eauto |].
     intros [n wm] Hm. cbn [snd fst] in *.
     allev_step; [allev_tac|]. allev_step; [allev_tac|].
     allev_step; [|apply persist_out_allev].
     apply allev_emit. destruct wm as [t tags]. cbn in Hm. subst t. apply H2.
+  Qed.
+
+  Lemma send_tail_allev m w0 : (forall tags, P (Wire (mkMsg (mtype m) tags))) -> allev P (send_tail c m w0).
+  Proof.
+    intros H2. unfold send_tail. allev_step; [allev_tac|]. now apply send_write_allev.
   Qed.
 
   Lemma send_msg_allev m :
